@@ -305,6 +305,7 @@ Definition btp_for (cs : cluster) (svc_ns svc_name : string) : option btp :=
   end.
 
 Definition btp_valid (cs : cluster) (b : btp) : bool :=
+  negb (bt_full b) &&
   match bt_ca b, bt_wellknown b with
   | Some cm, false => existsb (fun c => seqb (cm_ns c) (bt_ns b) && seqb (cm_name c) cm && cm_ok c) (c_cms cs)
   | None, true => true
